@@ -878,7 +878,24 @@ public:
     for (const LambdaExpr* LE : mine)
     {
       const CXXMethodDecl* CO = LE->getCallOperator();
-      if (!CO || !CO->hasBody()) continue;
+      if (!CO) continue;
+      // generic lambda: emit every instantiated specialisation of the call operator
+      if (const CXXRecordDecl* LC = LE->getLambdaClass())
+      {
+        if (FunctionTemplateDecl* FTD = LC->getDependentLambdaCallOperator())
+        {
+          unsigned k = 0;
+          for (FunctionDecl* Spec : FTD->specializations())
+          {
+            if (!Spec->hasBody() || Spec->isDependentContext()) continue;
+            const FunctionDecl* Def = nullptr;
+            if (!Spec->hasBody(Def) || !Def) continue;
+            emitBody(Def, Def, Def->getBody(), name + "::" + lambdaName(LE) + "#" + std::to_string(k++), name);
+          }
+          continue;
+        }
+      }
+      if (!CO->hasBody()) continue;
       if (CO->isDependentContext()) continue;
       emitBody(CO, CO, CO->getBody(), name + "::" + lambdaName(LE), name);
     }
